@@ -142,11 +142,92 @@ func addrChain(v ssa.Value) (fields []*types.Var, root ssa.Value) {
 			v = x.X
 		case *ssa.ChangeType:
 			v = x.X
+		case *ssa.Call:
+			// a getter of the module that hands out one of its receiver's fields
+			// (rels := d.ensureDocumentRelationships(); rels.Relationships = …): continue at the argument
+			// with the getter's field chain in front
+			if pre, arg, ok := getterChain(x); ok && depth < 24 {
+				fields = append(append([]*types.Var{}, pre...), fields...)
+				v = arg
+				continue
+			}
+			return fields, v
 		default:
 			return fields, v
 		}
 	}
 	return fields, v
+}
+
+var getterChainMemo = map[*ssa.Function]struct {
+	chain []*types.Var
+	param int
+	ok    bool
+}{}
+
+// getterChain: the call's callee is a module function every return of which is the (loaded) value
+// of the same field chain of one of its parameters: `return d.documentRelationships`.  Returns
+// that chain and the corresponding argument of the call.
+func getterChain(c *ssa.Call) ([]*types.Var, ssa.Value, bool) {
+	cal := c.Call.StaticCallee()
+	if cal == nil || cal.Pkg == nil || !strings.HasPrefix(cal.Pkg.Pkg.Path(), modPath) || len(cal.Blocks) == 0 || cal.Signature.Results().Len() != 1 {
+		return nil, nil, false
+	}
+	m, done := getterChainMemo[cal]
+	if !done {
+		getterChainMemo[cal] = m // breaks recursion
+		var chain []*types.Var
+		param := -1
+		ok := true
+		n := 0
+		for _, b := range cal.Blocks {
+			for _, in := range b.Instrs {
+				ret, isRet := in.(*ssa.Return)
+				if !isRet {
+					continue
+				}
+				n++
+				ld, isLd := ret.Results[0].(*ssa.UnOp)
+				if !isLd || ld.Op != token.MUL {
+					ok = false
+					continue
+				}
+				if _, isFA := ld.X.(*ssa.FieldAddr); !isFA {
+					ok = false
+					continue
+				}
+				ch, root := addrChain(ld.X)
+				par, isPar := root.(*ssa.Parameter)
+				if !isPar || len(ch) == 0 {
+					ok = false
+					continue
+				}
+				pi := -1
+				for i, q := range cal.Params {
+					if q == par {
+						pi = i
+					}
+				}
+				if chain == nil {
+					chain, param = ch, pi
+				} else if param != pi || len(chain) != len(ch) {
+					ok = false
+				} else {
+					for i := range ch {
+						if ch[i] != chain[i] {
+							ok = false
+						}
+					}
+				}
+			}
+		}
+		m.chain, m.param, m.ok = chain, param, ok && n > 0 && param >= 0
+		getterChainMemo[cal] = m
+	}
+	if !m.ok || m.param >= len(c.Call.Args) {
+		return nil, nil, false
+	}
+	return m.chain, c.Call.Args[m.param], true
 }
 
 // valueChain: for a loaded value expression like *(&a.B.C) or a.B.C, the field chain.
